@@ -459,6 +459,7 @@ class Uniform(Leaf):
 
         # Estimate the parameters of a uniform distribution
         self.start, self.width = ss.uniform.fit(data)
+        self.width = max(self.width, 1e-5)
 
     def em_init(self, random_state: np.random.RandomState):
         raise NotImplementedError("EM parameters initialization not yet implemented for Uniform distributions")
